@@ -173,20 +173,7 @@ pub async fn execute(plan: Plan, dir: &Path) -> RunOutcome {
         ora.before_step(&mut dev, s, &mut rec).await;
         let class = dev.exec(s, &mut rec, big).await;
         let class_short = class.split(':').next().unwrap_or("").to_string();
-        // A remembered folder log (fsnap) stands for "the copy another replica
-        // holds". It stays a valid force-merge source only while nothing that
-        // lives outside the folder log changed: keys (password / cipher),
-        // the clear-text attributes kept twice (name, flags, description) and
-        // the account-wide placement of secret ids (moves).
-        if !class.starts_with("skip") {
-            match opn.as_str() {
-                "move" | "archive" | "unarchive" | "chcipher" | "chpw_account" | "raw_create" | "fdelete" => dev.fsnaps.clear(),
-                "frename" | "fflags" | "fdesc" | "chpw_folder" => {
-                    dev.fsnaps.remove(&ju64(s, "fslot"));
-                }
-                _ => {}
-            }
-        }
+        dev.invalidate_fsnaps(&opn, s, &class);
         if opn == "frevert" && class == "ok" {
             rec.stats.probe("force_merge.applied");
         }
